@@ -380,6 +380,39 @@ pub fn run() -> i32 {
     });
     ctx.note("kx_arbitrary_peers", json!(peers.len()));
     ctx.absorb("kx-arbitrary-peers", st);
+    // a family of honest key pairs from counter seeds (every byte position of a public key takes
+    // every value) exchanged with each other, with themselves (loopback: own public key as the
+    // peer) and precomputed as box keys: verdict and keys must equal libsodium's
+    {
+        let nkeys: u32 = ctx.tier.pick(1u32 << 13, 1u32 << 17);
+        let chunks: Vec<u32> = (0..nkeys / 256).collect();
+        let st = par_units(&chunks, |&c, st| {
+            let kp = |n: u32| {
+                let mut sd = [0u8; 32];
+                sd[..4].copy_from_slice(&n.to_le_bytes());
+                sd[4..12].copy_from_slice(&seed.to_le_bytes());
+                sodium::kx_seed_keypair(&sd)
+            };
+            for i in 0..256u32 {
+                let n = c * 256 + i;
+                let (pk, sk) = kp(n);
+                for (what, peer) in [("next", kp(n ^ 1).0), ("self", pk)] {
+                    let (mut rx, mut tx) = ([0u8; 32], [0u8; 32]);
+                    let cl = guarded(AssertUnwindSafe(|| crypto_kx_client_session_keys(&mut rx, &mut tx, &pk, &sk, &peer).ok().map(|_| (rx, tx))));
+                    let (mut rx2, mut tx2) = ([0u8; 32], [0u8; 32]);
+                    let sv = guarded(AssertUnwindSafe(|| crypto_kx_server_session_keys(&mut rx2, &mut tx2, &pk, &sk, &peer).ok().map(|_| (rx2, tx2))));
+                    let bn = guarded(AssertUnwindSafe(|| dryoc::classic::crypto_box::crypto_box_beforenm(&peer, &sk)));
+                    let ok = cl == Ok(sodium::kx_client(&pk, &sk, &peer)) && sv == Ok(sodium::kx_server(&pk, &sk, &peer)) && bn.ok() == sodium::box_beforenm(&peer, &sk);
+                    st.eval(&("kx-family", n, what), true, if ok { "kx(honest family)==libsodium" } else { "kx(honest family)-differs" });
+                    if !ok {
+                        st.fail(Fail { check: "C05.x25519".into(), signature: format!("C05/kx/honest-family/{}", what), what: format!("honest pair (sk {}) with peer '{}' {}: session keys / verdict / box key differ from libsodium", hx(&sk), what, hx(&peer)), case: json!({"kind": "kx-peer", "peer_pk": hx(&peer), "sk": hx(&sk)}) });
+                    }
+                }
+            }
+        });
+        ctx.note("kx_honest_family", json!({"keys": nkeys, "peers": ["neighbouring key of the family", "own public key (loopback)"]}));
+        ctx.absorb("kx-honest-family", st);
+    }
     {
         let a: B32 = karr(seed ^ 0xd, 2);
         let b: B32 = karr(seed ^ 0xd, 3);
